@@ -6,7 +6,7 @@ CONSTANTS
   Threads = {1, 2}
   PinKeyArgs = TRUE
   MaxReg = 1
-  RegDesign = "keyed"
+  RegDesign = "clear"
   MaxLevel = 12
 CONSTRAINT Bounded
 INVARIANT Transparent
